@@ -50,3 +50,6 @@ import DateutilVerif.Properties.TzObjGen   -- translator tie (wt-iso): tzrange/t
 #print axioms C08.tzstr_norule_posix
 #print axioms C08.abbr_run_is_letters
 #print axioms C08.tzstr_abbr_letters
+#print axioms C08.norule_parse_table_uu
+#print axioms C08.norule_parse_table_mm
+#print axioms C08.tzstr_norule_hours
